@@ -147,6 +147,12 @@ def seal_envelope(payload: bytes, key: bytes, iv: bytes, key_info: str, extra_at
 def keystore_text(key_id: bytes, data1: bytes, data2: bytes, style: int = 0) -> str:
     def q(b):
         s = base64.b64encode(b).decode()
+        if style & 16:
+            # rewritten by a standard percent-encoder: everything outside the unreserved set, upper- or lower-case hex
+            from urllib.parse import quote
+
+            e = quote(s, safe="")
+            return e if style & 32 else "".join(ch.lower() if i and e[i - 1] == "%" or i > 1 and e[i - 2] == "%" else ch for i, ch in enumerate(e))
         return s.replace("=", "%3d") if style & 1 == 0 else s.replace("=", "%3D").replace("+", "%2b") if style & 2 else s
 
     enc = f"keyId={q(key_id)}:data1={q(data1)}:data2={q(data2)}:version=1"
